@@ -10010,3 +10010,824 @@ func indexObjectOf(v ssa.Value) ssa.Value {
 	}
 	return x
 }
+
+// ---------------------------------------------------------------------------------------------
+// R17.19 — a loop that converts k bytes at a time covers the last group and stays inside
+
+func init() {
+	register(ruleDef{ID: "R17.19", Prop: "C17", Tier: "quick", Floor: 1,
+		Title: "a loop that handles a byte slice k elements at a time covers the last group and stays inside: where a counter starts at 0, advances by a constant k ≥ 2 and is compared with len(s) plus a constant d (the loop runs while counter < len(s)+d) and the body indexes s at counter+j, the constant satisfies −k < d ≤ 0 (d ≤ −k skips the last group — the last voxel of every 16-bit slice stays 0 —, d > 0 runs past the end)",
+		Fn:    ruleStrideLoopCoversLastGroup})
+}
+
+func ruleStrideLoopCoversLastGroup(r *Run) {
+	w := r.W
+	n := 0
+	for _, f := range w.RepoFuncs {
+		if len(f.Blocks) == 0 || isTestFunc(w, f) {
+			continue
+		}
+		p := relPkg(pkgPathOf(f))
+		if !(strings.HasPrefix(p, "datatype/") || p == "dvid" || strings.HasPrefix(p, "storage")) {
+			continue
+		}
+		loops := naturalLoops(f)
+		k0 := 0
+		for _, h := range f.Blocks {
+			set := loops[h]
+			if set == nil || len(h.Instrs) == 0 {
+				continue
+			}
+			ifi, ok := h.Instrs[len(h.Instrs)-1].(*ssa.If)
+			if !ok {
+				continue
+			}
+			cmp, ok := ifi.Cond.(*ssa.BinOp)
+			if !ok || (cmp.Op != token.LSS && cmp.Op != token.LEQ) {
+				continue
+			}
+			// left: counter (+c1); right: len(s) (+c2)
+			split := func(v ssa.Value) (ssa.Value, int64) {
+				v = stripConv(v)
+				if bo, ok := v.(*ssa.BinOp); ok && (bo.Op == token.ADD || bo.Op == token.SUB) {
+					if c, isK := constInt(bo.Y); isK {
+						if bo.Op == token.SUB {
+							c = -c
+						}
+						return stripConv(bo.X), c
+					}
+				}
+				return v, 0
+			}
+			lv, c1 := split(cmp.X)
+			rv, c2 := split(cmp.Y)
+			phi, ok := lv.(*ssa.Phi)
+			if !ok || phi.Block() != h {
+				continue
+			}
+			lc, ok := rv.(*ssa.Call)
+			if !ok {
+				continue
+			}
+			bi, ok := lc.Call.Value.(*ssa.Builtin)
+			if !ok || bi.Name() != "len" {
+				continue
+			}
+			s := lc.Call.Args[0]
+			if st, ok := s.Type().Underlying().(*types.Slice); !ok || !types.Identical(st.Elem(), types.Typ[types.Uint8]) {
+				continue
+			}
+			// start 0, step k
+			var step int64
+			start0 := false
+			for i, e := range phi.Edges {
+				pred := h.Preds[i]
+				if !set[pred] {
+					if c, isK := constInt(e); isK && c == 0 {
+						start0 = true
+					}
+					continue
+				}
+				if bo, ok := e.(*ssa.BinOp); ok && bo.Op == token.ADD && bo.X == ssa.Value(phi) {
+					if c, isK := constInt(bo.Y); isK {
+						step = c
+					}
+				}
+			}
+			if !start0 || step < 2 {
+				continue
+			}
+			// the body indexes or slices s at counter + j
+			indexes := false
+			for b := range set {
+				for _, in := range b.Instrs {
+					switch x := in.(type) {
+					case *ssa.IndexAddr:
+						if x.X == s {
+							if base, _ := split(x.Index); base == ssa.Value(phi) {
+								indexes = true
+							}
+						}
+					case *ssa.Slice:
+						if x.X == s && x.Low != nil {
+							if base, _ := split(x.Low); base == ssa.Value(phi) {
+								indexes = true
+							}
+						}
+					}
+				}
+			}
+			if !indexes {
+				continue
+			}
+			// counter + c1 < len + c2  ⇔  counter < len + d
+			d := c2 - c1
+			if cmp.Op == token.LEQ {
+				d++
+			}
+			n++
+			k0++
+			r.check(-step < d && d <= 0, fmt.Sprintf("%s:stride-loop#%d:covers-last-group", fname(f), k0), fmt.Sprintf("step %d, runs while counter < len%+d", step, d),
+				fmt.Sprintf("the loop advances by %d and runs while counter < len%+d: it either stops before the last group of %d bytes (the last element is never converted — for 16-bit data the last voxel of every slice reads 0) or indexes past the end", step, d, step), w.pos(cmp.Pos()))
+		}
+	}
+	r.check(n >= 1, "repo:stride-loops-over-bytes", fmt.Sprintf("%d", n), "none found: rule needs review", "-")
+}
+
+// ---------------------------------------------------------------------------------------------
+// Round i/j, second part: R17.17, R17.18, R13.37–R13.40, R19.14–R19.16, R8.31, R15.9
+
+func init() {
+	register(ruleDef{ID: "R17.17", Prop: "C17", Tier: "quick", Floor: 1,
+		Title: "what was put into a batch is committed: in imageblk.Data.PutBlocks every success return that can follow a batch.Put lies behind a Commit (a span that is an exact multiple of the batch size must not end on an uncommitted full batch)",
+		Fn:    ruleBatchPutCommitted})
+	register(ruleDef{ID: "R17.18", Prop: "C17", Tier: "quick", Floor: 1,
+		Title: "every started job is waited for: in imageblk.Data.PutVoxels each goroutine that reports on the completion channel is started behind an increment of the counter that bounds the loop receiving from that channel (an uncounted goroutine — the extents update — may still run when the request is answered)",
+		Fn:    ruleStartedJobsAreCounted})
+	register(ruleDef{ID: "R13.37", Prop: "C13", Tier: "quick", Floor: 1,
+		Title: "a voxel-level split is not handled as a block-level one: in the sync handlers of annotation the coarse-split routine (splitLabelsCoarse) is called only on the 'Split == nil' edge of a test of the event's Split field (fine splits also carry the list of touched blocks; the coarse routine moves every element of the old body in those blocks)",
+		Fn:    ruleCoarseSplitOnlyWithoutVolume})
+	register(ruleDef{ID: "R13.38", Prop: "C13", Tier: "quick", Floor: 1,
+		Title: "a block rewrite looks at every element's previous label: in annotation.Data.mutateBlock every way round the loop over the block's elements passes the test that selects the read of the previous label data (an early continue for elements now on background never records that they left their body)",
+		Fn:    ruleMutateBlockReadsPreviousLabel})
+	register(ruleDef{ID: "R13.39", Prop: "C13", Tier: "quick", Floor: 1,
+		Title: "a body with exactly the threshold count is listed: in labelsz.Data.GetLabelsByThreshold the scan over sizes in descending order is cut short on 'size < threshold' only, not on equality (the API returns labels with count >= T)",
+		Fn:    ruleThresholdIncludesEquality})
+	register(ruleDef{ID: "R13.40", Prop: "C13", Tier: "quick", Floor: 1,
+		Title: "every tag of a posted element gets the posted element: in annotation's addTagDelta the loop that queues a posted element for a tag's list runs over the element's own Tags field (a list reduced to the newly added tags leaves the copies under kept tags with the old kind and properties)",
+		Fn:    ruleEveryTagGetsPostedElement})
+	register(ruleDef{ID: "R19.14", Prop: "C19", Tier: "quick", Floor: 1,
+		Title: "the last key of a version-limited copy is flushed: in datastore.copyVersions every path from the end-of-stream test (nil received) to the worker's return passes the test of the pending-slot counter that guards the flush",
+		Fn:    ruleEndOfStreamFlushes})
+	register(ruleDef{ID: "R19.15", Prop: "C19", Tier: "quick", Floor: 1,
+		Title: "re-homing a raw key changes its instance id only: storage.DataContext.UpdateInstance writes into the key only through constant sub-ranges inside the instance-id field and hands the key to no other function (a copy of all versions must keep each pair's version)",
+		Fn:    ruleUpdateInstanceTouchesIDOnly})
+	register(ruleDef{ID: "R19.16", Prop: "C19", Tier: "quick", Floor: 1,
+		Title: "no version list means every version: in datastore.TransferData the skip of a data key whose version is not listed lies behind the 'a version list was given' edge of a test of len(okVersions)",
+		Fn:    ruleVersionFilterOnlyWhenListed})
+	register(ruleDef{ID: "R8.31", Prop: "C08", Tier: "quick", Floor: 1,
+		Title: "a cleave changes the mapping only after the index step accepted it: in labelmap.Data.CleaveLabel the call of cleaveIndex — which validates the request against the body's index — comes before addCleaveToMapping on every path",
+		Fn:    ruleCleaveValidatesBeforeMapping})
+	register(ruleDef{ID: "R15.9", Prop: "C15", Tier: "quick", Floor: 1,
+		Title: "bytes stored under a compression label come from that compressor: in dvid.SerializeData the payload handed to the envelope is the unchanged input in at most one case (Uncompressed); no other case passes the input through under its own label (a payload that merely looks compressed would be decompressed on read)",
+		Fn:    ruleOnlyUncompressedPassesInput})
+}
+
+func ruleBatchPutCommitted(r *Run) {
+	w := r.W
+	f := w.method("datatype/imageblk", "Data", "PutBlocks")
+	if f == nil || len(f.Blocks) == 0 {
+		r.undecided("imageblk.Data.PutBlocks", "anchor not found")
+		return
+	}
+	isBatch := func(c ssa.CallInstruction) bool {
+		cc := c.Common()
+		if cc.IsInvoke() {
+			return strings.HasSuffix(cc.Value.Type().String(), "storage.Batch")
+		}
+		return false
+	}
+	isCommit := func(x ssa.Instruction) bool {
+		c, ok := x.(ssa.CallInstruction)
+		return ok && isBatch(c) && c.Common().Method.Name() == "Commit"
+	}
+	n := 0
+	for _, c := range calls(f) {
+		if !isBatch(c) || c.Common().Method.Name() != "Put" {
+			continue
+		}
+		n++
+		pth := consistentPath(f, c, isCommit, successExit)
+		r.check(pth == nil, fmt.Sprintf("PutBlocks:batch-put#%d:committed-before-success", n), "every success return behind the Put lies behind a Commit",
+			"a success return can be reached from a batch.Put without a Commit: the blocks of the last batch are acknowledged (and the extents posted) but never written", w.pos(c.Pos()), w.renderPath(pth)...)
+	}
+	r.check(n >= 1, "PutBlocks:batch-puts", fmt.Sprintf("%d", n), "none found: rule needs review", w.fpos(f))
+}
+
+func ruleStartedJobsAreCounted(r *Run) {
+	w := r.W
+	f := w.method("datatype/imageblk", "Data", "PutVoxels")
+	if f == nil || len(f.Blocks) == 0 {
+		r.undecided("imageblk.Data.PutVoxels", "anchor not found")
+		return
+	}
+	loops := naturalLoops(f)
+	// the wait loop: a loop whose body receives from a channel and whose bound is an int value
+	var bound ssa.Value
+	var ch ssa.Value
+	for h, set := range loops {
+		ifi, ok := h.Instrs[len(h.Instrs)-1].(*ssa.If)
+		if !ok {
+			continue
+		}
+		cmp, ok := ifi.Cond.(*ssa.BinOp)
+		if !ok || cmp.Op != token.LSS {
+			continue
+		}
+		for b := range set {
+			for _, in := range b.Instrs {
+				if u, ok := in.(*ssa.UnOp); ok && u.Op == token.ARROW {
+					bound, ch = cmp.Y, captureRoot(u.X)
+				}
+			}
+		}
+	}
+	if bound == nil {
+		r.undecided("imageblk.Data.PutVoxels", "wait loop not found")
+		return
+	}
+	// the increments that feed the bound
+	web := map[ssa.Value]bool{}
+	var walk func(v ssa.Value)
+	walk = func(v ssa.Value) {
+		v = stripConv(v)
+		if web[v] {
+			return
+		}
+		web[v] = true
+		switch x := v.(type) {
+		case *ssa.Phi:
+			for _, e := range x.Edges {
+				walk(e)
+			}
+		case *ssa.BinOp:
+			if x.Op == token.ADD {
+				walk(x.X)
+			}
+		}
+	}
+	walk(bound)
+	var incs []*ssa.BinOp
+	for v := range web {
+		if bo, ok := v.(*ssa.BinOp); ok && bo.Op == token.ADD {
+			if k, isK := constInt(bo.Y); isK && k == 1 {
+				incs = append(incs, bo)
+			}
+		}
+	}
+	n := 0
+	for _, c := range calls(f) {
+		g, isGo := c.(*ssa.Go)
+		if !isGo {
+			continue
+		}
+		mc, ok := g.Call.Value.(*ssa.MakeClosure)
+		if !ok {
+			continue
+		}
+		cl, ok := mc.Fn.(*ssa.Function)
+		if !ok {
+			continue
+		}
+		sends := false
+		for _, b := range cl.Blocks {
+			for _, in := range b.Instrs {
+				if s, ok := in.(*ssa.Send); ok && captureRoot(s.Chan) == ch {
+					sends = true
+				}
+			}
+		}
+		if !sends {
+			continue
+		}
+		n++
+		counted := false
+		for _, inc := range incs {
+			if !domInstr(inc, g) {
+				continue
+			}
+			inside := true
+			for _, set := range loops {
+				if set[g.Block()] && !set[inc.Block()] {
+					inside = false
+				}
+			}
+			if inside {
+				counted = true
+			}
+		}
+		r.check(counted, fmt.Sprintf("PutVoxels:go#%d:counted", n), "the goroutine is started behind an increment of the wait loop's bound",
+			"a goroutine that reports on the completion channel is started without the counter of the wait loop being raised: the request is answered while that goroutine (a block write or the extents update) may still be running, and a read that follows sees stale voxels or extents", w.pos(g.Pos()))
+	}
+	r.check(n >= 1 && len(incs) >= 1, "PutVoxels:reporting-goroutines", fmt.Sprintf("%d goroutines, %d increments", n, len(incs)), "anchor not found: rule needs review", w.fpos(f))
+}
+
+func ruleCoarseSplitOnlyWithoutVolume(r *Run) {
+	w := r.W
+	n := 0
+	for _, f := range w.RepoFuncs {
+		if len(f.Blocks) == 0 || relPkg(pkgPathOf(f)) != "datatype/annotation" || isTestFunc(w, f) {
+			continue
+		}
+		for _, c := range calls(f) {
+			if methodNameOf(c) != "splitLabelsCoarse" {
+				continue
+			}
+			n++
+			ok := false
+			for _, b := range f.Blocks {
+				ifi, isIf := b.Instrs[len(b.Instrs)-1].(*ssa.If)
+				if !isIf {
+					continue
+				}
+				bo, isBo := ifi.Cond.(*ssa.BinOp)
+				if !isBo || (bo.Op != token.EQL && bo.Op != token.NEQ) || !isNilConst(bo.Y) {
+					continue
+				}
+				if nm, isF := fieldSel(bo.X); !isF || nm != "Split" {
+					continue
+				}
+				edge := 0
+				if bo.Op == token.NEQ {
+					edge = 1
+				}
+				if guardedByEdge(ifi, edge, c) {
+					ok = true
+				}
+			}
+			r.check(ok, fmt.Sprintf("%s:splitLabelsCoarse#%d:only-without-a-split-volume", fname(f), n), "the coarse routine is called on the Split == nil edge",
+				"the block-level split routine is called without the test that the event carries no split volume: a voxel-level split, which also lists its touched blocks, moves every element of the old body in those blocks to the new body — label/<old> loses elements whose voxels did not move", w.pos(c.Pos()))
+		}
+	}
+	r.check(n >= 1, "annotation:coarse-split-calls", fmt.Sprintf("%d", n), "none found: rule needs review", "-")
+}
+
+func ruleMutateBlockReadsPreviousLabel(r *Run) {
+	w := r.W
+	f := w.method("datatype/annotation", "Data", "mutateBlock")
+	if f == nil || len(f.Blocks) == 0 {
+		r.undecided("annotation.Data.mutateBlock", "anchor not found")
+		return
+	}
+	var prev *ssa.Parameter
+	for _, p := range f.Params {
+		if p.Name() == "prev" {
+			prev = p
+		}
+	}
+	if prev == nil {
+		r.undecided("annotation.Data.mutateBlock", "parameter prev not found")
+		return
+	}
+	// the test that selects the read of the previous data: an If on len(prev)
+	isPrevTest := func(x ssa.Instruction) bool {
+		ifi, ok := x.(*ssa.If)
+		if !ok {
+			return false
+		}
+		for d := range dataDeps(ifi.Cond) {
+			if c, ok := d.(*ssa.Call); ok {
+				if bi, ok := c.Call.Value.(*ssa.Builtin); ok && bi.Name() == "len" && len(c.Call.Args) == 1 && c.Call.Args[0] == ssa.Value(prev) {
+					return true
+				}
+			}
+		}
+		return false
+	}
+	n := 0
+	for h, set := range naturalLoops(f) {
+		// the element loop: its body computes the voxel offset (a Point3dInChunk call)
+		var entry ssa.Instruction
+		for b := range set {
+			for _, in := range b.Instrs {
+				if c, ok := in.(ssa.CallInstruction); ok && methodNameOf(c) == "Point3dInChunk" {
+					entry = in
+				}
+			}
+		}
+		if entry == nil {
+			continue
+		}
+		n++
+		pth := findPath(f, entry, isPrevTest, func(x ssa.Instruction) bool { return x == h.Instrs[0] }, func(bb *ssa.BasicBlock, i int) bool { return set[bb.Succs[i]] })
+		r.check(pth == nil, fmt.Sprintf("mutateBlock:element-loop#%d:previous-label-examined", n), "every pass reaches the test that selects the read of the previous label",
+			"a pass of the loop over the block's elements can go round without looking at the element's previous label: an element whose voxel became background keeps its entry in the old body's list (label/<old> and the labelsz counts are stale)", w.pos(entry.Pos()), w.renderPath(pth)...)
+	}
+	r.check(n >= 1, "mutateBlock:element-loops", fmt.Sprintf("%d", n), "none found: rule needs review", w.fpos(f))
+}
+
+func ruleThresholdIncludesEquality(r *Run) {
+	w := r.W
+	top := w.method("datatype/labelsz", "Data", "GetLabelsByThreshold")
+	if top == nil {
+		r.undecided("labelsz.Data.GetLabelsByThreshold", "anchor not found")
+		return
+	}
+	var minSize *ssa.Parameter
+	for _, p := range top.Params {
+		if p.Name() == "minSize" {
+			minSize = p
+		}
+	}
+	n := 0
+	for _, f := range closureTree(top) {
+		for _, b := range f.Blocks {
+			ifi, ok := b.Instrs[len(b.Instrs)-1].(*ssa.If)
+			if !ok {
+				continue
+			}
+			bo, ok := ifi.Cond.(*ssa.BinOp)
+			if !ok {
+				continue
+			}
+			isMin := func(v ssa.Value) bool {
+				rt := captureRoot(stripConv(v))
+				if minSize != nil && rt == ssa.Value(minSize) {
+					return true
+				}
+				al, ok := rt.(*ssa.Alloc)
+				return ok && al.Comment == "minSize"
+			}
+			op := bo.Op
+			switch {
+			case isMin(bo.Y):
+			case isMin(bo.X):
+				switch op {
+				case token.LSS:
+					op = token.GTR
+				case token.GTR:
+					op = token.LSS
+				case token.LEQ:
+					op = token.GEQ
+				case token.GEQ:
+					op = token.LEQ
+				}
+			default:
+				continue
+			}
+			// the edge that leaves with the short-circuit error
+			leave := -1
+			for i, sblk := range b.Succs {
+				for _, x := range sblk.Instrs {
+					if _, isRet := x.(*ssa.Return); isRet {
+						leave = i
+					}
+				}
+			}
+			if leave < 0 {
+				continue
+			}
+			if leave == 1 {
+				switch op {
+				case token.LSS:
+					op = token.GEQ
+				case token.GEQ:
+					op = token.LSS
+				case token.LEQ:
+					op = token.GTR
+				case token.GTR:
+					op = token.LEQ
+				}
+			}
+			n++
+			r.check(op == token.LSS, fmt.Sprintf("%s:threshold-cut#%d:strict", fname(f), n), "the scan is cut short on size < threshold",
+				"the descending scan is cut short when the size equals the threshold (or on another relation than size < threshold): bodies whose count is exactly T are missing from threshold/T although the API returns counts >= T", w.pos(bo.Pos()))
+		}
+	}
+	r.check(n >= 1, "GetLabelsByThreshold:cuts", fmt.Sprintf("%d", n), "no comparison with the threshold found: rule needs review", w.fpos(top))
+}
+
+func ruleEveryTagGetsPostedElement(r *Run) {
+	w := r.W
+	f := w.fn("datatype/annotation", "addTagDelta")
+	if f == nil || len(f.Blocks) == 0 {
+		r.undecided("annotation.addTagDelta", "anchor not found")
+		return
+	}
+	loops := naturalLoops(f)
+	n := 0
+	for _, b := range f.Blocks {
+		for _, in := range b.Instrs {
+			// td.add = append(td.add, newElem.ElementNR) / ElementsNR{newElem.ElementNR}: a store into field add
+			st, ok := in.(*ssa.Store)
+			if !ok {
+				continue
+			}
+			fa, ok := st.Addr.(*ssa.FieldAddr)
+			if !ok {
+				continue
+			}
+			if nm, _, _ := fieldName(fa); nm != "add" {
+				continue
+			}
+			// the innermost loop that holds the store: its bound is len(X); X must be a Tags field
+			h, _, _ := innermostLoop(f, b)
+			if h == nil {
+				continue
+			}
+			ifi, ok := h.Instrs[len(h.Instrs)-1].(*ssa.If)
+			if !ok {
+				continue
+			}
+			n++
+			overTags := false
+			for d := range dataDeps(ifi.Cond) {
+				c, ok := d.(*ssa.Call)
+				if !ok {
+					continue
+				}
+				if bi, ok := c.Call.Value.(*ssa.Builtin); ok && bi.Name() == "len" {
+					if nm, isF := fieldSel(c.Call.Args[0]); isF && nm == "Tags" {
+						overTags = true
+					}
+				}
+			}
+			_ = loops
+			r.check(overTags, fmt.Sprintf("addTagDelta:queue-for-tag#%d:over-the-element's-tags", n), "the queuing loop runs over the posted element's Tags",
+				"the loop that queues a posted element for its tags does not run over the element's own tag list: under a tag the element keeps, the tag's list keeps the old copy (kind, properties, tag list) after an overwriting POST", w.pos(st.Pos()))
+		}
+	}
+	r.check(n >= 1, "addTagDelta:queue-sites", fmt.Sprintf("%d", n), "none found: rule needs review", w.fpos(f))
+}
+
+func ruleEndOfStreamFlushes(r *Run) {
+	w := r.W
+	top := w.fn("datastore", "copyVersions")
+	if top == nil {
+		r.undecided("datastore.copyVersions", "anchor not found")
+		return
+	}
+	n := 0
+	for _, f := range closureTree(top) {
+		// the slot store and the counter incremented beside it
+		var counter ssa.Value
+		for _, b := range f.Blocks {
+			slot := false
+			for _, in := range b.Instrs {
+				if mu, ok := in.(*ssa.MapUpdate); ok && !isNilConst(mu.Value) {
+					if mt, ok := mu.Map.Type().Underlying().(*types.Map); ok && strings.HasSuffix(mt.Key().String(), "dvid.VersionID") && strings.Contains(mt.Elem().String(), "KeyValue") {
+						slot = true
+					}
+				}
+			}
+			if !slot {
+				continue
+			}
+			for _, in := range b.Instrs {
+				if bo, ok := in.(*ssa.BinOp); ok && bo.Op == token.ADD && bo.Type().String() == "int" {
+					if k, isK := constInt(bo.Y); isK && k == 1 {
+						counter = bo
+					}
+				}
+			}
+		}
+		if counter == nil {
+			continue
+		}
+		web := map[ssa.Value]bool{}
+		var walk func(v ssa.Value)
+		walk = func(v ssa.Value) {
+			if web[v] {
+				return
+			}
+			web[v] = true
+			switch x := v.(type) {
+			case *ssa.Phi:
+				for _, e := range x.Edges {
+					walk(e)
+				}
+				for _, ref := range *x.Referrers() {
+					if p, ok := ref.(*ssa.Phi); ok {
+						walk(p)
+					}
+				}
+			case *ssa.BinOp:
+				walk(x.X)
+				for _, ref := range *x.Referrers() {
+					if p, ok := ref.(*ssa.Phi); ok {
+						walk(p)
+					}
+				}
+			}
+		}
+		walk(counter)
+		isFlushGuard := func(x ssa.Instruction) bool {
+			ifi, ok := x.(*ssa.If)
+			if !ok {
+				return false
+			}
+			bo, ok := ifi.Cond.(*ssa.BinOp)
+			if !ok || bo.Op != token.GTR {
+				return false
+			}
+			k, isK := constInt(bo.Y)
+			return isK && k == 0 && web[stripConv(bo.X)]
+		}
+		// from the receive of the stream's next element, every path to the worker's return passes the flush guard
+		for _, b := range f.Blocks {
+			for _, in := range b.Instrs {
+				u, ok := in.(*ssa.UnOp)
+				if !ok || u.Op != token.ARROW || !strings.Contains(u.Type().String(), "KeyValue") {
+					continue
+				}
+				n++
+				pth := findPath(f, u, isFlushGuard, func(x ssa.Instruction) bool { _, isRet := x.(*ssa.Return); return isRet }, nil)
+				r.check(pth == nil, fmt.Sprintf("%s:stream-receive#%d:flush-before-return", fname(f), n), "every return behind the receive lies behind the flush guard",
+					"the worker can return after receiving the end of the stream without passing the flush of the pending version slots: the key that sorts last in the instance is missing at every listed version of the copy", w.pos(u.Pos()), w.renderPath(pth)...)
+			}
+		}
+	}
+	r.check(n >= 1, "copyVersions:end-of-stream-tests", fmt.Sprintf("%d", n), "none found: rule needs review", w.fpos(top))
+}
+
+func ruleUpdateInstanceTouchesIDOnly(r *Run) {
+	w := r.W
+	f := w.method("storage", "DataContext", "UpdateInstance")
+	if f == nil || len(f.Blocks) == 0 || len(f.Params) < 2 {
+		r.undecided("storage.DataContext.UpdateInstance", "anchor not found")
+		return
+	}
+	k := f.Params[1]
+	bad := ""
+	writes := 0
+	for _, b := range f.Blocks {
+		for _, in := range b.Instrs {
+			c, ok := in.(ssa.CallInstruction)
+			if !ok {
+				continue
+			}
+			for i, a := range c.Common().Args {
+				uses := a == ssa.Value(k)
+				var sl *ssa.Slice
+				if s2, ok := a.(*ssa.Slice); ok && s2.X == ssa.Value(k) {
+					sl = s2
+				}
+				if !uses && sl == nil {
+					continue
+				}
+				bi, isBuiltin := c.Common().Value.(*ssa.Builtin)
+				if isBuiltin && (bi.Name() == "len" || bi.Name() == "cap") {
+					continue
+				}
+				if isBuiltin && bi.Name() == "copy" && i == 0 && sl != nil {
+					lo, ok1 := int64(0), true
+					if sl.Low != nil {
+						lo, ok1 = constInt(sl.Low)
+					}
+					hi, ok2 := int64(-1), false
+					if sl.High != nil {
+						hi, ok2 = constIntExpr(sl.High)
+					}
+					writes++
+					if !(ok1 && ok2 && lo >= 1 && hi <= 1+4) {
+						bad = "a copy into the key outside [1:5] at " + w.pos(c.Pos())
+					}
+					continue
+				}
+				if isBuiltin && bi.Name() == "copy" && i == 1 {
+					continue
+				}
+				if callee := staticCallee(c); callee != nil && (callee.Name() == "Errorf" || callee.Name() == "Sprintf") {
+					continue
+				}
+				bad = "the key is handed to " + c.Common().String() + " at " + w.pos(c.Pos())
+			}
+		}
+	}
+	r.check(bad == "" && writes >= 1, "storage.DataContext.UpdateInstance:writes-the-instance-id-only", "the only write is a copy into the instance-id field",
+		"re-homing a raw key does more than replace its instance id ("+bad+"): a copy of all versions of an instance collapses every pair onto the version the copy was requested at", w.fpos(f))
+}
+
+// constIntExpr evaluates constants and sums of constants (1+dvid.InstanceIDSize is folded by the compiler, but a
+// conversion may remain).
+func constIntExpr(v ssa.Value) (int64, bool) {
+	if k, ok := constInt(stripConv(v)); ok {
+		return k, true
+	}
+	if bo, ok := stripConv(v).(*ssa.BinOp); ok && bo.Op == token.ADD {
+		a, ok1 := constIntExpr(bo.X)
+		b, ok2 := constIntExpr(bo.Y)
+		return a + b, ok1 && ok2
+	}
+	return 0, false
+}
+
+func ruleVersionFilterOnlyWhenListed(r *Run) {
+	w := r.W
+	top := w.fn("datastore", "TransferData")
+	if top == nil {
+		r.undecided("datastore.TransferData", "anchor not found")
+		return
+	}
+	n := 0
+	for _, f := range closureTree(top) {
+		// okVersions: a map[VersionID]bool looked up
+		for _, b := range f.Blocks {
+			for _, in := range b.Instrs {
+				lk, ok := in.(*ssa.Lookup)
+				if !ok {
+					continue
+				}
+				mt, ok := lk.X.Type().Underlying().(*types.Map)
+				if !ok || !strings.HasSuffix(mt.Key().String(), "dvid.VersionID") || mt.Elem().String() != "bool" {
+					continue
+				}
+				n++
+				root := captureRoot(lk.X)
+				guarded := false
+				for _, gb := range f.Blocks {
+					ifi, isIf := gb.Instrs[len(gb.Instrs)-1].(*ssa.If)
+					if !isIf {
+						continue
+					}
+					bo, isBo := ifi.Cond.(*ssa.BinOp)
+					if !isBo {
+						continue
+					}
+					c, isCall := stripConv(bo.X).(*ssa.Call)
+					if !isCall {
+						continue
+					}
+					bi, isB := c.Call.Value.(*ssa.Builtin)
+					if !isB || bi.Name() != "len" || captureRoot(c.Call.Args[0]) != root {
+						continue
+					}
+					z, isK := constInt(bo.Y)
+					if !isK || z != 0 {
+						continue
+					}
+					edge := -1
+					switch bo.Op {
+					case token.NEQ, token.GTR:
+						edge = 0
+					case token.EQL:
+						edge = 1
+					}
+					if edge >= 0 && guardedByEdge(ifi, edge, lk) {
+						guarded = true
+					}
+				}
+				r.check(guarded, fmt.Sprintf("%s:version-filter#%d:only-when-a-list-was-given", fname(f), n), "the lookup in the version list lies behind len(list) != 0",
+					"the version filter is applied although no version list was given: with an empty list every data key is skipped, the transfer that is documented (and logged) as a full copy moves no data and still reports success", w.pos(lk.Pos()))
+			}
+		}
+	}
+	r.check(n >= 1, "TransferData:version-filters", fmt.Sprintf("%d", n), "none found: rule needs review", w.fpos(top))
+}
+
+func ruleCleaveValidatesBeforeMapping(r *Run) {
+	w := r.W
+	f := w.method("datatype/labelmap", "Data", "CleaveLabel")
+	if f == nil || len(f.Blocks) == 0 {
+		r.undecided("labelmap.Data.CleaveLabel", "anchor not found")
+		return
+	}
+	var idx, mp ssa.Instruction
+	for _, c := range calls(f) {
+		switch {
+		case methodNameOf(c) == "cleaveIndex":
+			idx = c
+		case staticCallee(c) != nil && staticCallee(c).Name() == "addCleaveToMapping":
+			mp = c
+		}
+	}
+	if idx == nil || mp == nil {
+		r.undecided("labelmap.Data.CleaveLabel", "cleaveIndex / addCleaveToMapping calls not found")
+		return
+	}
+	r.check(domInstr(idx, mp), "CleaveLabel:index-step-before-mapping", "cleaveIndex comes before addCleaveToMapping on every path",
+		"the mapping (in memory and in the log) is changed before the index step has validated the request: a cleave that is refused — a supervoxel of another body, all supervoxels of the body, a label that is no body — has already re-mapped the named supervoxels to a label that never gets an index", w.pos(mp.Pos()))
+}
+
+func ruleOnlyUncompressedPassesInput(r *Run) {
+	w := r.W
+	f := w.fn("dvid", "SerializeData")
+	if f == nil || len(f.Blocks) == 0 || len(f.Params) == 0 {
+		r.undecided("dvid.SerializeData", "anchor not found")
+		return
+	}
+	data := f.Params[0]
+	// the payload handed on: the argument of SerializePrecompressedData
+	n := 0
+	for _, c := range calls(f) {
+		callee := staticCallee(c)
+		if callee == nil || callee.Name() != "SerializePrecompressedData" || len(c.Common().Args) == 0 {
+			continue
+		}
+		n++
+		pass := 0
+		seen := map[ssa.Value]bool{}
+		var walk func(v ssa.Value)
+		walk = func(v ssa.Value) {
+			if seen[v] {
+				return
+			}
+			seen[v] = true
+			if phi, ok := v.(*ssa.Phi); ok {
+				for _, e := range phi.Edges {
+					if e == ssa.Value(data) {
+						pass++
+					} else {
+						walk(e)
+					}
+				}
+			} else if v == ssa.Value(data) {
+				pass++
+			}
+		}
+		walk(c.Common().Args[0])
+		r.check(pass <= 1, fmt.Sprintf("SerializeData:payload#%d:input-passed-through-at-most-once", n), fmt.Sprintf("%d case(s) pass the input through unchanged", pass),
+			fmt.Sprintf("%d cases hand the input to the envelope unchanged: besides Uncompressed, a compressed format stores bytes that its compressor did not produce under its own label — on read they are decompressed, and a payload that merely begins like a compressed stream comes back as something else or as an error", pass), w.pos(c.Pos()))
+	}
+	r.check(n >= 1, "SerializeData:envelope-calls", fmt.Sprintf("%d", n), "none found: rule needs review", w.fpos(f))
+}
